@@ -22,7 +22,8 @@ def c15():
               "(RFC 2865/2866/2869/5176/5997 over OpenSSL MD5/HMAC-MD5, anchored on the RFC 2865 section 7 packets) in 4 build variants; "
               "every buffer is allocated with exactly the generated size. dns_name: host names from a grammar (1..253 bytes, 63-byte labels, "
               "127 one-byte labels, totals 250..255+, empty / over-long labels) through DomainNameToSequenceOfLabels / dns_msg_name2sequence_of_labels "
-              "and back; dns_name_shapes enumerates every label length 1..65, 1..130 one-byte labels and totals 240..258. dns_msg: histories "
+              "and back; dns_hdr_counts: set/inc/dec sequences on the four section counts with arbitrary 16-bit values against the RFC 1035 wire bytes; "
+              "dns_name_shapes enumerates every label length 1..65, 1..130 one-byte labels and totals 240..258. dns_msg: histories "
               "dns_hdr_create -> question_add* -> rr_add* (+ the caller's counter increment) -> optrr_add? into a buffer of generated size until "
               "EOVERFLOW, retry with the reported size, byte comparison with the RFC encoding after every step, then validate / info_get / "
               "question_get_data / rr_get_data / rr_find against the reference decoder. rad_pw: password hiding and un-hiding with exact buffers. "
